@@ -146,9 +146,34 @@ class Grumpy:
         return self
 
 
+class AwaitedDataError(Exception):
+    """somebody awaited an object that was only ever passed around as DATA"""
+
+
+class AwaitableItem:
+    """["W", uid]: a data item that happens to be awaitable (like a Future stored in a list).
+    Tools must hand it through untouched; awaiting it is an error of the code under test."""
+
+    __slots__ = ("uid", "awaited", "__weakref__")
+
+    def __init__(self, uid):
+        self.uid = uid
+        self.awaited = 0
+
+    def __repr__(self):
+        return f"AwaitableItem({self.uid})"
+
+    def __await__(self):
+        self.awaited += 1
+        raise AwaitedDataError(self.uid)
+        yield  # pragma: no cover
+
+
 def mat(v):
     """Materialise a value descriptor into a fresh live object."""
     t = v[0]
+    if t == "W":
+        return AwaitableItem(v[1])
     if t == "G":
         return Grumpy(v[1], v[2])
     if t == "I":
@@ -188,6 +213,8 @@ def sig(o):
         return ("I", o.key, _uid(o.uid))
     if isinstance(o, Grumpy):
         return ("G", o.what, o.uid)
+    if isinstance(o, AwaitableItem):
+        return ("W", o.uid)
     if o is None:
         return ("n",)
     tp = type(o)
